@@ -34,7 +34,7 @@ def rand_load(rng: random.Random, depth: int) -> str:
     if r < 0.6:
         return rand_load(rng, depth - 1) + "." + rng.choice(["x", "attr", "y"])
     if r < 0.8:
-        return rand_load(rng, depth - 1) + "[" + rng.choice(["0", "1", "'k'", "'infinite'", rng.choice(NAMES)]) + "]"
+        return rand_load(rng, depth - 1) + "[" + rng.choice(["0", "1", "'k'", "'infinite'", "'{id}'", "'{{s}}'", "'{}'", rng.choice(NAMES)]) + "]"
     if r < 0.86:
         # an attribute of super(c, o), read (3.12: one LOAD_SUPER_ATTR instruction), possibly called as a method
         base = "super(" + rand_load(rng, depth - 2) + ", " + rand_load(rng, depth - 2) + ")." + rng.choice(["x", "attr", "y"])
@@ -143,6 +143,8 @@ def to_term(target: str, glob: bool, cell: Optional[str] = None):
         if isinstance(n, (ast.Attribute, ast.Subscript)):
             return first_insn(n.value)
         if isinstance(n, ast.Call):
+            if is_super_attr(n.func):
+                return "G"
             if isinstance(n.func, ast.Attribute):
                 return first_insn(n.func.value)
             return "GN" if first_insn(n.func) == "G" else "P"
